@@ -201,6 +201,13 @@ def scope_no_callable(I, T, v):
     return [z3.Not(vm.is_callable(v)), I.U.has_type(v, PLAIN_TYPES)]
 
 
+def scope_plain_or_function(I, T, v):
+    # Date / CalendarDate inherit Number's validator but do NOT support dynamic (callable) values:
+    # a function offered as the value is in scope and has to be rejected
+    return [z3.Or(z3.And(z3.Not(vm.is_callable(v)), I.U.has_type(v, PLAIN_TYPES)),
+                  z3.And(vm.is_callable(v), vm.ty(v) == vm.TAG["function"]))]
+
+
 def valid_number(I, T, v, info):
     return z3.Or(none_case(I, T, v),
                  z3.And(is_number(I, v), inside(I, T["bounds"], T["inclusive_bounds"], v, I.U.num_le, I.U.num_lt)))
@@ -598,9 +605,9 @@ def contracts():
     C[-1].qual = "%s:Number._validate" % MOD_P
     C.append(vc("Integer", MOD_P, NUM_SLOTS, wf_integer, valid_integer, scope=scope_no_callable))
     C[-1].qual = "%s:Number._validate" % MOD_P
-    C.append(vc("Date", MOD_P, NUM_SLOTS, wf_date, valid_date, scope=scope_no_callable))
+    C.append(vc("Date", MOD_P, NUM_SLOTS, wf_date, valid_date, scope=scope_plain_or_function))
     C[-1].qual = "%s:Number._validate" % MOD_P
-    C.append(vc("CalendarDate", MOD_P, NUM_SLOTS, wf_caldate, valid_caldate, scope=scope_no_callable))
+    C.append(vc("CalendarDate", MOD_P, NUM_SLOTS, wf_caldate, valid_caldate, scope=scope_plain_or_function))
     C[-1].qual = "%s:Number._validate" % MOD_P
     for cls in ("Boolean", "Event"):
         C.append(vc(cls, MOD_P, ["allow_None"], nothing, valid_boolean))
